@@ -288,7 +288,8 @@ def r3_r4_next(ctx, f, rep):
         mut_inner = [e for i, e in enumerate(p.events) if i > first_search and e['kind'] == 'call' and
                      any(a == ('ref', INNER, True) for a in e['args'])]
         rep.check(not mut_inner, 'C14-R4', b.nname, 'the vector is not modified after the search', construct='no-late-mutation')
-        pos = ('fieldv', opt, '0', 'Some')
+        # the index found: `Some(pos) = opt` or `opt?`
+        is_pos = lambda v: isinstance(v, tuple) and q.some_payload(p, v) == opt
         if known == 'None':
             rep.check(p.ret[0] == 'agg' or q.variant_name(p.ret) == 'None' or 'None' in show(p.ret, b), 'C14-R3', b.nname,
                       'nothing found: None is returned', construct='none-when-nothing-found')
@@ -299,7 +300,7 @@ def r3_r4_next(ctx, f, rep):
         good = False
         if r[0] == 'call' and r[1] in calls and calls[r[1]]['res'] == 'core::slice::<impl [T]>::get':
             g = calls[r[1]]
-            good = g['args'][1] == pos and q.mentions(g['args'][0], lambda x: x[0] == 'call' and x[1] in calls and
+            good = is_pos(g['args'][1]) and q.mentions(g['args'][0], lambda x: x[0] == 'call' and x[1] in calls and
                                                       calls[x[1]]['res'] == '<alloc::vec::Vec as core::ops::Deref>::deref'
                                                       and calls[x[1]]['args'][0] == ('ref', INNER, False))
         rep.check(good, 'C14-R3', b.nname, 'the record returned is inner.get(index found)', construct='returns-found-record',
@@ -313,16 +314,16 @@ def r3_r4_next(ctx, f, rep):
             if cn is None:
                 continue
             rel, a, b_ = cn
-            if rel == 'gt' and same_cursor(a, cur) and b_ == pos:
+            if rel == 'gt' and same_cursor(a, cur) and is_pos(b_):
                 wrapped = True          # cursor > pos
-            elif rel == 'ge' and a == pos and same_cursor(b_, cur):
+            elif rel == 'ge' and is_pos(a) and same_cursor(b_, cur):
                 wrapped = False         # pos >= cursor
         def is_next(v):
             if v[0] == 'call' and v[1] in calls:
                 c = calls[v[1]]
                 return c['res'] in ('core::num::<impl usize>::saturating_add', 'core::num::<impl usize>::wrapping_add') and \
-                    c['args'][0] == pos and q.is_const(c['args'][1], 1)
-            return v[0] == 'binop' and v[1] == 'Add' and {v[2], v[3]} >= {pos} and \
+                    is_pos(c['args'][0]) and q.is_const(c['args'][1], 1)
+            return v[0] == 'binop' and v[1] == 'Add' and (is_pos(v[2]) or is_pos(v[3])) and \
                 (q.is_const(v[2], 1) or q.is_const(v[3], 1))
         if len(wr_after) != 1:
             rep.violation('C14-R4', b.nname, 'cursor-writes:%d' % len(wr_after), 'a path that found a record writes the cursor '
